@@ -48,10 +48,19 @@ def run_direct(ctx, mx, w, ops, world, viol):
     model = BudgetModel(mx, w)
     grants = []
     hist = {"max_retries": mx, "window_s": w, "ops": [list(o) for o in ops]}
+    relimited = False
     for op in ops:
         now = world.t
         if op[0] == "adv":
             world.t += op[1]
+            continue
+        if op[0] == "setmax":
+            # the operator changes the limit of a live (shared) budget: a public attribute, effective from the next request on
+            real.max_retries = op[1]
+            model.max = op[1]
+            mx = op[1]
+            relimited = True
+            ctx.cnt["op:limit_changed_on_a_live_budget"] += 1
             continue
         if op[0] == "remaining":
             got = real.remaining()
@@ -86,7 +95,7 @@ def run_direct(ctx, mx, w, ops, world, viol):
         if rem not in model.remaining(now):
             viol("partial-grant", f"after consume({cost}) -> {got}: remaining() = {rem}, model allows {sorted(model.remaining(now))}", hist)
             return False
-    worst = window_violations(sorted(grants), w, mx)
+    worst = 0 if relimited else window_violations(sorted(grants), w, mx)  # one limit for the whole history: the plain window count applies too
     ctx.mx("max_tokens_seen_in_a_window", worst)
     if worst > mx:
         viol("window-bound-exceeded", f"{worst} tokens inside one window of {w}s (max_retries {mx}); grant log {grants}", hist)
@@ -352,6 +361,8 @@ def work(ctx, tier):
             mx = rng.randint(0, 6)
             w = rng.choice([1.0, 2.0, 0.5, 10.0])
             alpha = alphabet(w) + [("consume", 1)] * 3 + [("adv", w / 2), ("adv", 3 * w)]
+            if k % 4 == 3:
+                alpha = alpha + [("setmax", rng.randint(0, 8)), ("setmax", mx + rng.randint(1, 4))]
             ops = rng.choices(alpha, k=50)
             run_direct(ctx, mx, w, ops, world, viol)
             ctx.cnt["random_histories"] += 1
@@ -372,6 +383,7 @@ def work(ctx, tier):
 
 def conclude(ctx):
     floors = {
+        "op:limit_changed_on_a_live_budget": (ctx.cnt["op:limit_changed_on_a_live_budget"], 200),
         "grants": (ctx.cnt["grants"], 5000),
         "refusals": (ctx.cnt["refusals"], 5000),
         "refusals_justified_strictly": (ctx.cnt["refusals_justified_strictly"], 1000),
